@@ -28,6 +28,7 @@ namespace bxdecay0 {
 
   void decay0_positron(i_random & prng_, event & event_, double energy_, double tclev_, double thlev_, double & tdlev_)
   {
+    BXDECAY0_VERIF_SCOPE("positron", energy_, tclev_, thlev_);
     randomize_particle(prng_, event_, POSITRON, energy_, energy_, 0., M_PI, 0., 2. * M_PI, tclev_, thlev_, tdlev_);
     return;
   }
